@@ -20,7 +20,7 @@ BASE_ASSUMPTIONS = [
 
 
 class Profile:
-    def __init__(self, prop, oracles, variants, rule, budget, post=None, assumptions=(), wall=20, runner=None,
+    def __init__(self, prop, oracles, variants, rule, budget, post=None, assumptions=(), wall=60, runner=None,
                  gen=None, features=None, minimiser=None):
         self.prop = prop
         self.oracles = oracles
